@@ -4,6 +4,11 @@
     Recurse (anything that calls recurse! / iter_recurse / parse_* / merge!); the default arm must be
     `a => token!(a, TokenKind::Unlintable)`;
   * the function-call table of parse_func_call (callee text -> ignore positional args?, ignored named args);
+  * the emission ORDER of the arms that were out of source order before 3103238 (F34): Expr::Set = target, args, condition;
+    Expr::Show = selector, transform; parse_args_ignored keeps the call arguments in text order (one filter_map over
+    func.args().items(), a dead argument = token!(a, Unlintable), a live one = parse_args(once(a)));
+  * the retain filter at the end of Typst::parse (harper-typst/src/lib.rs, b629a93): collect, `let mut covered = 0;`,
+    `tokens.retain(|t| { if t.span.start < covered { return false; } covered = covered.max(t.span.end); true });`, return;
   * the shape of def_token! and of the prelude of parse_expr (range check with `?`, push_to_span) that Model/C04Typst.v mirrors.
 Raises when an arm, the macro or the prelude no longer has the shape it knows (a NEW arm raises: its class decides
 whether its text is offered as prose)."""
@@ -118,12 +123,14 @@ def generate(repo):
     body = re.sub(r"//[^\n]*", "", src[i + 1:j])
     arms = split_arms(body)
     rows, default = [], None
+    rhs_of = {}
     for a in arms:
         pat, rhs = a.split("=>", 1)
         pat = pat.strip()
         mm = re.fullmatch(r"Expr::(\w+)\((\w+)\)", pat)
         if mm:
             rows.append((mm.group(1), classify(mm.group(1), mm.group(2), rhs)))
+            rhs_of[mm.group(1)] = norm(rhs).rstrip(",")
         elif pat == "a":
             default = norm(rhs).rstrip(",")
         else:
@@ -141,6 +148,37 @@ def generate(repo):
     missing = sorted(set(KNOWN) - set(names))
     if missing:
         raise RuntimeError("typst_translator.rs: arms disappeared (they now fall to the default Unlintable arm): %s" % ", ".join(missing))
+    # ---- emission order of the Set / Show arms and of parse_args_ignored (3103238) ----
+    ORDER = {
+        "Set": ("merge![ recurse!(set_rule.target()), parse_args(&mut set_rule.args().items()), "
+                "set_rule.condition().and_then(|expr| recurse!(expr)) ]", ["target", "args", "condition"]),
+        "Show": ("merge![ show_rule.selector().and_then(|expr| recurse!(expr)), recurse!(show_rule.transform()) ]",
+                 ["selector", "transform"]),
+    }
+    for n, (want_rhs, _) in ORDER.items():
+        if rhs_of.get(n) != want_rhs:
+            raise RuntimeError("typst_translator.rs: arm Expr::%s no longer emits in the known (source) order: %r" % (n, rhs_of.get(n)))
+    am = re.search(r"let parse_args_ignored = \|ignore_pos: bool, ignore_nameds: &\[&str\]\| \{(.*?)\n            \};", src, re.S)
+    if not am:
+        raise RuntimeError("typst_translator.rs: parse_args_ignored not found")
+    want_pai = ("Some( func.args() .items() .filter_map(|a| { let dead = match &a { Arg::Pos(_) => ignore_pos, "
+                "Arg::Named(named) => ignore_nameds.contains(&named.name().as_str()), Arg::Spread(_) => false, }; "
+                "if dead { token!(a, TokenKind::Unlintable) } else { parse_args(&mut std::iter::once(a)) } }) "
+                ".flatten() .collect_vec(), )")
+    got_pai = norm(re.sub(r"//[^\n]*", "", am.group(1)))
+    if got_pai != want_pai:
+        raise RuntimeError("typst_translator.rs: parse_args_ignored changed shape (arguments no longer in text order?): %r" % got_pai)
+    # ---- Typst::parse: collect, retain filter, return (b629a93) ----
+    lib = open(os.path.join(repo, "harper-typst/src/lib.rs"), encoding="utf-8").read()
+    lm = re.search(r"fn parse\(&self, source: &\[char\]\) -> Vec<Token> \{(.*?)\n    \}\n\}", lib, re.S)
+    if not lm:
+        raise RuntimeError("harper-typst/src/lib.rs: Typst::parse not found")
+    lbody = norm(re.sub(r"//[^\n]*", "", lm.group(1)))
+    want_tail = ("let mut tokens = exprs .into_iter() .filter_map(|ex| parse_helper.parse_expr(ex, OffsetCursor::new(&typst_document))) "
+                 ".flatten() .collect_vec(); let mut covered = 0; tokens.retain(|t| { if t.span.start < covered { return false; } "
+                 "covered = covered.max(t.span.end); true }); tokens")
+    if not lbody.endswith(want_tail):
+        raise RuntimeError("harper-typst/src/lib.rs: the end of Typst::parse (collect, retain filter, return) changed shape: %r" % lbody[-400:])
     # ---- parse_func_call table ----
     fm = re.search(r"match text \{(.*?)\n\s*\}\n\s*\]", src, re.S)
     if not fm:
@@ -175,4 +213,10 @@ def generate(repo):
     out.append("  [" + ";\n   ".join('("%s"%%string, %s)' % (n, c) for n, c in rows) + "].")
     out.append("Definition typst_calls : list (list string * string * bool * list string) :=")
     out.append("  [" + ";\n   ".join('(%s, "%s"%%string, %s, %s)' % (sl(ns), suf, b, sl(ig)) for ns, suf, b, ig in calls) + "].")
+    out.append("(* emission order of the arms fixed by 3103238; parse_args_ignored keeps the arguments in text order *)")
+    out.append("Definition typst_arm_order : list (string * list string) :=")
+    out.append("  [" + "; ".join('("%s"%%string, %s)' % (n, sl(o)) for n, (_, o) in ORDER.items()) + "].")
+    out.append("Definition typst_ignored_args_in_text_order : bool := true.")
+    out.append("(* Typst::parse ends with the retain filter of b629a93 (Model/C04Typst.typst_retain), start value 0 *)")
+    out.append("Definition typst_parse_has_retain_filter : bool := true.")
     return "\n".join(out) + "\n"
